@@ -59,9 +59,9 @@ prop('C13', 'c13', '6 (C13)', gens=('GenArith.v', 'GenFixint.v'))
 prop('C14', 'c14', '7 (C14)', gens=('GenSchemaDecl.v', 'GenSchemaImpls.v'))
 prop('C15', 'c15', '7 (C15)', gens=('GenSchemaDecl.v',))
 prop('C16', 'c16', '7 (C16)', gens=('GenSchemaDecl.v', 'GenHashTags.v', 'GenArith.v'))
-prop('C17', 'c17', '8 (C17)', gens=('GenArith.v', 'GenLoops.v', 'GenPanicArms.v', 'GenDynArms.v', 'GenDynComposite.v'))
-prop('C18', 'c18', '8 (C18)', gens=('GenArith.v', 'GenLoops.v', 'GenPanicArms.v', 'GenDynArms.v', 'GenDynComposite.v'))
-prop('C19', 'c19', '7 (C19)', gens=('GenFmt.v', 'GenPanicArms.v'))
+prop('C17', 'c17', '8 (C17)', gens=('GenArith.v', 'GenLoops.v', 'GenPanicArms.v', 'GenDynArms.v', 'GenDynComposite.v', 'GenDynHelpers.v'))
+prop('C18', 'c18', '8 (C18)', gens=('GenArith.v', 'GenLoops.v', 'GenPanicArms.v', 'GenDynArms.v', 'GenDynComposite.v', 'GenDynHelpers.v'))
+prop('C19', 'c19', '7 (C19)', gens=('GenFmt.v', 'GenPanicArms.v', 'GenFnTemplates.v'))
 prop('C20', 'c20', '5 (C20)', gens=('GenArith.v', 'GenLoops.v', 'GenModifiers.v', 'GenStorages.v', 'GenSerEntry.v'))
 
 
